@@ -170,7 +170,25 @@ impl TextGen {
         Some(&w[rng.below(w.len())])
     }
 
+    /// any code point of the blocks the script uses (assigned or not)
+    fn any_in_block(&self, rng: &mut Rng, s: &Sc) -> char {
+        match s.fam {
+            Fam::Arabic => range_pick(rng, &[(0x600, 0x6FF), (0x750, 0x77F), (0x8A0, 0x8FF), (0xFB50, 0xFDFF), (0xFE70, 0xFEFF)]),
+            Fam::Syriac => range_pick(rng, &[(0x700, 0x74F), (0x860, 0x86F)]),
+            Fam::Indic => range_pick(rng, &[(s.base, s.base + 0x7F), (0x1CD0, 0x1CFF), (0xA8E0, 0xA8FF), (0x0951, 0x0954), (0x0964, 0x0965)]),
+            Fam::Khmer => range_pick(rng, &[(0x1780, 0x17FF), (0x19E0, 0x19FF)]),
+            Fam::Myanmar => range_pick(rng, &[(0x1000, 0x109F), (0xA9E0, 0xA9FF), (0xAA60, 0xAA7F)]),
+            Fam::Thai => range_pick(rng, &[(0xE00, 0xE7F)]),
+            Fam::Lao => range_pick(rng, &[(0xE80, 0xEFF)]),
+            Fam::Latin => range_pick(rng, &[(0x20, 0x24F), (0x300, 0x36F), (0x2000, 0x206F), (0x1E00, 0x1EFF)]),
+            Fam::Hebrew => range_pick(rng, &[(0x590, 0x5FF), (0xFB1D, 0xFB4F)]),
+        }
+    }
+
     pub fn base(&self, rng: &mut Rng, s: &Sc) -> char {
+        if rng.chance(1, 14) {
+            return self.any_in_block(rng, s);
+        }
         match s.fam {
             Fam::Arabic => range_pick(rng, &[(0x620, 0x64A), (0x620, 0x64A), (0x66E, 0x6D3), (0x750, 0x77F), (0x8A0, 0x8B4), (0x660, 0x669), (0xFB50, 0xFBB1), (0xFE70, 0xFEFC)]),
             Fam::Syriac => range_pick(rng, &[(0x710, 0x72F), (0x710, 0x72F), (0x74D, 0x74F), (0x700, 0x70D), (0x620, 0x64A)]),
@@ -581,6 +599,7 @@ impl TextGen {
             1 => 1,
             2 => 2,
             3..=10 => rng.urange(3, 14),
+            11 if rng.chance(1, 4) => rng.urange(65, 400),
             _ => rng.urange(8, 64),
         };
         if target == 1 {
@@ -639,7 +658,7 @@ impl TextGen {
         if rng.chance(1, 8) {
             out.push(if rng.bool() { self.halant(s) } else { *rng.pick(&[ZWJ, ZWNJ]) });
         }
-        out.truncate(64);
+        out.truncate(if target > 64 { 400 } else { 64 });
         out
     }
 
